@@ -114,25 +114,43 @@ class ModelError(Exception):
     pass
 
 
-def run_model(entry, args, chunk=20000):
-    """Run the extracted model on a list of sx-encodable arguments; returns parsed results.
-    [entry] is one entry-point name or a list of names parallel to [args]."""
+def _run_driver(inp):
+    p = subprocess.run([DRIVER], input=inp, stdout=subprocess.PIPE, stderr=subprocess.PIPE, timeout=7200)
+    if p.returncode != 0:
+        raise ModelError("driver failed: " + p.stderr.decode()[:500])
+    lines = p.stdout.decode().split("\n")
+    if lines and lines[-1] == "":
+        lines.pop()
+    return lines
+
+
+def run_model(entry, args, chunk=None):
+    """Run the extracted model on a list of sx-encodable arguments; returns parsed results, in order.
+    [entry] is one entry-point name or a list of names parallel to [args]. The cases are dealt round-robin to
+    VERIF_JOBS (default 8) driver processes: some cases (floats with extreme exponents) are 1000x dearer than others."""
     if not os.path.exists(DRIVER):
         raise ModelError("driver missing: run `make setup` in " + VERIF)
-    res = []
-    for i in range(0, len(args), chunk):
-        part = args[i : i + chunk]
-        names = entry[i : i + chunk] if isinstance(entry, list) else [entry] * len(part)
-        inp = "".join("%s %s\n" % (n, sx_dump(a)) for n, a in zip(names, part))
-        p = subprocess.run([DRIVER], input=inp.encode(), stdout=subprocess.PIPE, stderr=subprocess.PIPE, timeout=3600)
-        if p.returncode != 0:
-            raise ModelError("driver failed: " + p.stderr.decode()[:500])
-        lines = p.stdout.decode().split("\n")
-        if lines and lines[-1] == "":
-            lines.pop()
-        if len(lines) != len(part):
-            raise ModelError("driver returned %d lines for %d cases" % (len(lines), len(part)))
-        res.extend(sx_parse(l) for l in lines)
+    n = len(args)
+    if n == 0:
+        return []
+    names = entry if isinstance(entry, list) else [entry] * n
+    jobs = max(1, min(int(os.environ.get("VERIF_JOBS", "8")), (n + 199) // 200))
+    inputs = []
+    for j in range(jobs):
+        inputs.append("".join("%s %s\n" % (names[i], sx_dump(args[i])) for i in range(j, n, jobs)).encode())
+    if jobs == 1:
+        outs = [_run_driver(inputs[0])]
+    else:
+        import concurrent.futures
+        with concurrent.futures.ThreadPoolExecutor(max_workers=jobs) as ex:
+            outs = list(ex.map(_run_driver, inputs))
+    res = [None] * n
+    for j, lines in enumerate(outs):
+        idx = range(j, n, jobs)
+        if len(lines) != len(idx):
+            raise ModelError("driver returned %d lines for %d cases" % (len(lines), len(idx)))
+        for i, l in zip(idx, lines):
+            res[i] = sx_parse(l)
     return res
 
 
